@@ -13,7 +13,9 @@ def run(ck, ctx):
         "allowed only in the two places the properties require (unknown output_mode; ALTER/INDEX on an unknown table) or "
         "control-dependent on `not self.silent`; T-FLAGFLOW: `silent` is read only to gate a raise, so results cannot differ "
         "when nothing is raised; exception class table; the unknown-mode test dominates parsing and names the valid modes; "
-        "p_error raises DDLParserError and does nothing else.")
+        "p_error raises DDLParserError and does nothing else. E3 x E4 (O-accept / O-raise): on every derivation of the core-column, "
+        "sequence and dialect-clause fragments the parser always has an action, the lexer never meets an unknown symbol and no "
+        "semantic action raises - so supported DDL of these fragments reaches neither error hook, whatever `silent` is.")
     n = S.t_raisegate(ck, ctx, {
         "Parser.run": "unknown output_mode must raise SimpleDDLParserException (C16)",
         "Output.get_table_from_tables_data": "ALTER / CREATE INDEX naming an undefined table must raise (C04)",
@@ -96,5 +98,13 @@ def run(ck, ctx):
     r = m.resolve_symbol(run_f.module, "dialect_by_name")
     ck.ob("T-MODE-CHECK", "dialect_by_name resolves to output/dialects.py", bool(r) and r[0] == "value" and r[1].name == "simple_ddl_parser.output.dialects",
           str(r), run_f.loc())
+    # supported DDL never reaches the error hooks: no missing parser action, no unknown symbol, no raising action on any
+    # derivation of the core fragments (the fragments with recorded known findings are judged by their own properties)
+    from ..rules.fragments import run_fragments
+    from ..specs.clauses import GROUPS
+    jobs = [dict(module="table", label="core-column", only_rules={"O-accept", "O-raise"}, build_kw=dict(tier=ck.tier, constraints=False, set_null=False)),
+            dict(module="sequence", only_rules={"O-accept", "O-raise"}, build_kw=dict(tier=ck.tier))]
+    jobs += [dict(module="clauses", only_rules={"O-accept", "O-raise"}, build_kw=dict(group=g, tier=ck.tier)) for g in GROUPS if g != "oracle"]
+    run_fragments(ck, ctx, jobs)
     ck.assumptions += ["PLY calls p_error exactly when an action-table entry is missing and t_error exactly when no lexer rule matches",
                        "exceptions thrown by actions on malformed values (int('abc'), KeyError) are declined (DESIGN 4 C16)"]
